@@ -34,6 +34,9 @@ def build_harness():
             f.write(data)
     except OSError:
         pass
+    with open(os.path.join(HARNESS, 'go.mod'), 'w') as f:
+        f.write('module verif/harness\n\ngo 1.21\n\nrequire github.com/mdzio/go-mqtt v0.0.0\n\n'
+                'replace github.com/mdzio/go-mqtt => %s\n' % REPO)
     rc, out = run(['go', 'build', '-tags', 'verif', '-o', CORR, './cmd/corr'], cwd=HARNESS, env=GOENV, timeout=1200)
     return rc == 0, out
 
